@@ -121,7 +121,7 @@ def _fault_sig(events):
     return None
 
 
-def run_mirsym_property(pid, tier, seed, harness_files, relevant_codes, outcome_kinds=("abort", "unwound", "memory-error"),
+def run_mirsym_property(pid, tier, seed, harness_files, relevant_codes, outcome_kinds=("abort", "unwound", "memory-error", "fatal"),
                         entry_filter=None, opts=None, expect_marks=("9003",), assumptions=(), bounds=None, design_ref=None,
                         extra_coverage=None, per_entry_expect=None, title="", post=None):
     """runs the exploration, native confirmation and validation; writes evidence; returns exit code"""
